@@ -1,8 +1,9 @@
 (* Properties_C15.v — text files return exactly the lines that were written, and EOF is exact.
-   PARTIAL: the reading side is proved (the loop over EOF / READFILE as the evaluator implements them,
-   Files.v); that WRITEFILE appends `text ++ line break` to the disk is a one-line definition in Eval.v
-   and the value-to-text forms are compared by the correspondence. *)
-From PE2 Require Import Files Lemmas_Files.
+   Proved: the reading side (the loop over EOF / READFILE as the evaluator implements them, Files.v) and the two statements
+   themselves, in every state: WRITEFILE on a WRITE/APPEND handle appends exactly the text of the value and one line break to that
+   file and changes nothing else; READFILE on a READ handle stores exactly the next line in the STRING variable and advances the
+   handle by that line.  PARTIAL: the value-to-text forms (REAL to 6 decimals, DATE as d/m/y) are compared by the correspondence. *)
+From PE2 Require Import Files Lemmas_Files Eval Run Lemmas_ConstLogic Lemmas_IoStates.
 Local Open Scope Z_scope.
 
 (* for a file made of lines each ended by a line break, WHILE NOT EOF ... READFILE delivers exactly the
@@ -31,3 +32,26 @@ Example C15_empty_file_reads_nothing : read_loop 5 (rd []) = [] /\
 b
 ")) = [str_of_string "a"; str_of_string "b"].
 Proof. vm_compute. split; reflexivity. Qed.
+
+(* WRITEFILE "f", d on a handle opened FOR WRITE or APPEND: the file's content grows by exactly the text of the value and one line
+   break; nothing else in the state changes.  d is any expression that yields, without touching the state, a primitive value whose
+   text (prim_to_string: the OUTPUT form) is txt *)
+Theorem C15_writefile_appends_exactly_one_line : forall ped repl lim fuel t name d c s fh dr p txt,
+  find_file (tval name) (s_files s) = Some fh -> (of_mode fh = FWrite \/ of_mode fh = FAppend) ->
+  ev_eval (evs_at ped repl lim (S fuel)) d c s = (Ok dr, s) -> prim_kind (dk (r_type dr)) = true -> r_val dr = Some p -> prim_to_string p s = (Ok txt, s) ->
+  ev_eval (evs_at ped repl lim (S (S fuel))) (NWriteFile t (NStr name) d) c s =
+    (Ok res_none, set_fs (fs_set (tval name) (match fs_get (tval name) (s_fs s) with Some old => old | None => [] end ++ txt ++ [ch_nl]) (s_fs s)) s).
+Proof. exact writefile_appends_one_line. Qed.
+Print Assumptions C15_writefile_appends_exactly_one_line.
+
+(* READFILE "f", v on a handle opened FOR READ, v an existing STRING variable that is not a constant: v receives exactly the next
+   line (file_read_line: up to the next line break, C15_readfile_one_line), the handle advances by that line, nothing else changes *)
+Theorem C15_readfile_stores_exactly_the_next_line : forall ped repl lim fuel t name id c s fh vid cl,
+  find_file (tval name) (s_files s) = Some fh -> of_mode fh = FRead ->
+  lookup_var c (tval id) true s = (Ok (Some vid), s) -> nm_get vid (s_cells s) = Some cl -> dk (c_type cl) = KStr -> c_const cl = false ->
+  let line := fst (file_read_line fh) in let fh' := snd (file_read_line fh) in
+  let s1 := set_files (replace_file fh' (s_files s)) s in
+  ev_eval (evs_at ped repl lim (S (S fuel))) (NReadFile t (NStr name) id) c s =
+    (Ok res_none, set_cells (nm_put vid (mkCell (c_name cl) (c_type cl) (c_const cl) (c_owner cl) (PStr line)) (s_cells s1)) s1).
+Proof. exact readfile_stores_the_next_line. Qed.
+Print Assumptions C15_readfile_stores_exactly_the_next_line.
